@@ -170,8 +170,11 @@ class ConnProfile(FsmProfile):
         cfg["w_timer"] = rng.pick([1, 2, 4])
         if rng.chance(0.1):
             # TCP-MD5 configured; on half of these hosts the kernel refuses the socket option
-            cfg["md5"] = "s3cr3t"
-            cfg["sockopt_errno"] = rng.pick([None, 92])
+            cfg["md5"] = rng.pick(["s3cr3t", "k" * 81])
+            cfg["sockopt_errno"] = rng.pick([None, 92, 22])
+        if rng.chance(0.25):
+            # the application handler raises (storage full) at a few message callbacks
+            cfg["p_hfail"] = rng.pick([0.03, 0.08, 0.2])
         return cfg
 
 
@@ -182,6 +185,15 @@ class StopCtx(FsmCtx):
     prop = "C13"
     soft = True
     regime_exit = False
+
+    def check_escapes(self, escapes, cell):
+        # an exception that escapes into the reactor (a failing socket option, a raising application
+        # handler) is logged there and the peering lives on: the operator's stop still has to be final
+        hard = [e for e in escapes if e[0] != "exc"]
+        if escapes and not hard:
+            self.stats["exception_escaped_into_reactor(run continues)"] += len(escapes)
+            return
+        FsmCtx.check_escapes(self, hard, cell)
 
     def __init__(self, cfg, tier):
         FsmCtx.__init__(self, cfg, tier)
@@ -368,6 +380,14 @@ class StopProfile(FsmProfile):
     def gen_config(self, rng, idx, tier):
         cfg = swarm_config(rng, idx)
         cfg["max_ops"] = rng.pick([30, 45, 60, 80])
+        if rng.chance(0.25):
+            # the application handler raises (storage full) at a few message callbacks
+            cfg["p_hfail"] = rng.pick([0.03, 0.08, 0.2])
+        if rng.chance(0.1):
+            # TCP-MD5 configured; on half of these hosts the kernel refuses the socket option (92 = no such
+            # protocol option, 22 = key too long)
+            cfg["md5"] = rng.pick(["s3cr3t", "k" * 81])
+            cfg["sockopt_errno"] = rng.pick([None, 92, 22])
         return cfg
 
 
@@ -434,6 +454,9 @@ class HealCtx(FsmCtx):
         self.H = min(cfg["hold_time"], cfg["peer_hold"])
         self.kinds_seen = set()
         self.silent = False
+        self.op_stopped = False
+        self.stopped_at_switch = False
+        self.peer_expired = set()
 
     # ---- generation
     def choose(self, rng):
@@ -452,7 +475,7 @@ class HealCtx(FsmCtx):
         return self.coop_op()
 
     def stopped_by_rest(self):
-        return self.model.stopped
+        return self.model.stopped or self.op_stopped
 
     def coop_op(self):
         """The cooperative peer, as a deterministic function of what it can see."""
@@ -513,6 +536,14 @@ class HealCtx(FsmCtx):
                     end = self.end_time()
                     if end is not None and now >= end - EPS:
                         return None
+                    # the peer runs its own hold timer, like any router: silence of the agent for the
+                    # negotiated hold time ends the session from the peer's side
+                    if self.H > 0 and c.write_times:
+                        peer_deadline = c.write_times[-1][0] + self.H
+                        if now >= peer_deadline - EPS and c.cid not in self.peer_expired:
+                            self.peer_expired.add(c.cid)
+                            return ["send", k, rp.encode_notification(4, 0).hex(), []]
+                        nxt = min(nxt, peer_deadline)
                     nt = w.reactor.next_time()
                     horizon = min(nxt, end if end is not None else nxt)
                     if nt is not None and nt < horizon - EPS:
@@ -553,7 +584,9 @@ class HealCtx(FsmCtx):
             if self.coop:
                 return
             self.coop = True
+            self.stopped_at_switch = self.op_stopped
             self.t_switch = w.now()
+            w.handler_fail_in = None        # the application's storage works again
             self.first_coop_cid = len(w.conns)
             # a pending attempt of the adversarial phase is simply answered by the now cooperative peer
             for c in w.live_conns():
@@ -596,10 +629,16 @@ class HealCtx(FsmCtx):
                                     "OPEN of the recovery session (connection #%d) differs from the first OPEN of the run "
                                     "(connection #%d) in %s: first %s, now %s"
                                     % (t[1], self.first_open_cid, diff, self.first_open, summ))
+        if ("stop",) in evs:
+            self.op_stopped = True
+        elif ("start",) in evs:
+            self.op_stopped = False
         if not self.coop:
             for lb in labels:
                 self.kinds_seen.add(lb)
             return
+        if self.stopped_at_switch:
+            return      # (only in a cut-down replay: the generator always has the operator start the peer first)
         now = w.now()
         if self.t_estab is None:
             up = [c.cid for c in w.live_conns() if c.readable()]
@@ -632,7 +671,7 @@ class HealCtx(FsmCtx):
 
     def finish(self):
         w = self.world
-        if not self.coop or w.exited:
+        if not self.coop or w.exited or self.stopped_at_switch:
             return
         if self.t_estab is None:
             if w.now() <= self.liveness_deadline() + EPS:
@@ -655,11 +694,11 @@ class HealProfile(FsmProfile):
     id = "C02"
     runs = {"quick": 30000, "thorough": 1000000}
     ctx_class = HealCtx
-    rule = ("one run = adversarial prefix of 0-60 ops over the C01 alphabet (operator never leaves the peer stopped), then the "
+    rule = ("one run = adversarial prefix of 0-60 ops over the C01 alphabet (operator never leaves the peer stopped; in 35 % of the runs the application handler raises ENOSPC at a few message callbacks), then the "
             "peer turns cooperative: resets old connections (30 % of runs: a connection the agent waits on in OpenSent is instead dead -- nothing ever arrives on it -- and the bound grows by the 240 s OpenSent hold timer), accepts connects within <=1 s, validates the agent's OPEN like a "
             "real router, answers with a valid OPEN and KEEPALIVEs every H/3 for 3 hold times; non-trivial = healed to "
             "Established; distinct = distinct prefix cell sequence + switch state")
-    probes = ["switch_with_dead_connection_in_OpenSent", "gen:default_handler_runs", "healed", "stayed_up_3H", "switch_in_IDLE", "switch_in_CONNECT", "switch_in_OPENSENT", "switch_in_OPENCONFIRM",
+    probes = ["op:hfail", "handler_fault_fired:keepalive_received", "handler_fault_fired:send_open", "handler_fault_fired:open_received", "switch_with_dead_connection_in_OpenSent", "gen:default_handler_runs", "healed", "stayed_up_3H", "switch_in_IDLE", "switch_in_CONNECT", "switch_in_OPENSENT", "switch_in_OPENCONFIRM",
               "switch_in_ESTABLISHED", "switch_during_close_completion", "ev:open_err6", "ev:open_hold0"]
 
     def gen_config(self, rng, idx, tier):
@@ -669,6 +708,10 @@ class HealProfile(FsmProfile):
         cfg["peer_hold"] = rng.pick([0, 3, 9, 30, 90, 180, 65535])
         cfg["connect_latency"] = rng.pick([0.0, 0.1, 1.0])
         cfg["dead_old_connection"] = rng.chance(0.3)
+        if rng.chance(0.35):
+            # the application handler raises (storage full) now and then during the adversarial phase
+            cfg["p_hfail"] = rng.pick([0.03, 0.08, 0.2])
+            cfg["hfail_everywhere"] = False
         # bias: unacceptable / unusual OPENs in the prefix (the "poisoned value" class)
         cfg["peer_open"] = base.gen_open(rng, cfg, "valid", hold=cfg["peer_hold"]).hex()
         if rng.chance(0.1):
@@ -736,7 +779,10 @@ class StatsCtx(FsmCtx):
                         body["attr"]["1"] = "igp"
                     self.stats["gen:unencodable_rest_update"] += 1
                 return ["rest", "POST", URL + "send/update", "ok", body]
-            body = {"afi": rng.pick([1, 1, 2]), "safi": rng.pick([1, 1, 128])}
+            body = {"afi": rng.pick([1, 1, 2, 2, 25]), "safi": rng.pick([1, 1, 2, 128, 70])}
+            fams = base.remote_families()
+            if fams and rng.chance(0.6):
+                body["afi"], body["safi"] = rng.pick(fams)     # a family the peer did advertise
             if rng.chance(0.6):
                 body["res"] = rng.pick([0, 1, 2, 255, 256, -1, None, "x", 1.5])
             return ["rest", "POST", URL + "send/route-refresh", "ok", body]
@@ -858,6 +904,7 @@ class StatsProfile(FsmProfile):
         cfg["hostile"] = bool(idx % 2)
         cfg["handler_faults"] = rng.chance(0.3)
         cfg["p_rest_send"] = rng.pick([0, 0.1, 0.3])
+        cfg["p_extra_family"] = rng.pick([0.15, 0.5])
         return cfg
 
 
